@@ -224,7 +224,7 @@ pub fn build_pool(draws: usize) -> Pool {
 /// Add, for every tag, contents generated from the documented field formats (fieldspec.rs) at minimum / maximum / random
 /// component lengths that the documented format matches and the field parser accepts — boundary-length values of every
 /// option, which the scenario draws never contain.
-pub fn add_spec_contents(pool: &mut Pool, rng: &mut Rng, per_len: usize) {
+pub fn add_spec_contents(pool: &mut Pool, rng: &mut Rng, per_len: usize, canonical: bool) {
     use crate::fmt::{Gen, Len};
     let all = crate::fields::specs();
     for sp in all.iter().filter(|s| s.members.is_empty()) {
@@ -238,7 +238,22 @@ pub fn add_spec_contents(pool: &mut Pool, rng: &mut Rng, per_len: usize) {
                         if c.is_empty() || c.split('\n').any(|l| l.starts_with(':') || l.starts_with('-')) || c.contains("-}") || c.contains('{') || c.contains('}') {
                             continue;
                         }
-                        if crate::fields::documented(&all, sp, &c) && matches!(crate::fields::parse_named(&sp.name, &c), crate::fields::Outcome::Ok { .. }) {
+                        if !crate::fields::documented(&all, sp, &c) {
+                            continue;
+                        }
+                        let crate::fields::Outcome::Ok { ser, .. } = crate::fields::parse_named(&sp.name, &c) else { continue };
+                        // the library's own canonical spelling of this content (what it writes back), when asked for
+                        let c = if canonical {
+                            let c2 = ser.splitn(3, ':').nth(2).unwrap_or("").to_string();
+                            match crate::fields::parse_named(&sp.name, &c2) {
+                                crate::fields::Outcome::Ok { ser: ser2, .. } if ser2 == ser => c2,
+                                _ => continue,
+                            }
+                        } else { c };
+                        if c.is_empty() || c.split('\n').any(|l| l.starts_with(':') || l.starts_with('-')) {
+                            continue;
+                        }
+                        {
                             let v = pool.by_tag.entry(sp.tag.clone()).or_default();
                             if v.len() < 600 && !v.contains(&c) {
                                 v.push(c);
